@@ -1,6 +1,6 @@
 (* C11, DoAckLock (A2, A3) and the ack timeout (A5): what `do_ack` / `do_timeout` answer, for every state. *)
 From Coq Require Import String ZifyN ZifyBool ZifyNat.
-From Slock Require Import Engine.Types Engine.Queues Engine.Timers Engine.Engine Engine.Engine2 Engine.LocalBase.
+From Slock Require Import Engine.Types Engine.Queues Engine.Timers Engine.Engine Engine.Engine2.
 From Slock Require Import Engine.AckProofsBase.
 Open Scope N_scope.
 
@@ -114,11 +114,13 @@ Qed.
 
 (* ------------------------------------------------------------------ small state facts *)
 Lemma fr_ack_255 s s' r : fr s s' -> l_ack (getl s r) = 255 -> l_ack (getl s' r) = 255.
-Proof. intros [A _] H. destruct (A r) as [[E|E] _]; congruence. Qed.
+Proof. intros (A & _) H. destruct (A r) as [[E|E] _]; congruence. Qed.
 Lemma fr_locked_0 s s' r : fr s s' -> l_locked (getl s r) = 0 -> l_locked (getl s' r) = 0.
-Proof. intros [A _] H. destruct (A r) as [_ [E|E]]; congruence. Qed.
+Proof. intros (A & _) H. destruct (A r) as [_ [E|E]]; congruence. Qed.
+Lemma fr_leader s s' : fr s s' -> leader s' = leader s.
+Proof. intros (_ & _ & L). exact L. Qed.
 Lemma fr_mview s s' k m' : fr s s' -> aget (mgrs s') k = Some m' -> exists m, aget (mgrs s) k = Some m /\ mview m' = mview m.
-Proof. intros [_ M] H. eauto. Qed.
+Proof. intros (_ & M & _) H. eauto. Qed.
 
 Lemma getl_of s r l : aget (store s) r = Some l -> getl s r = l.
 Proof. unfold getl. intros ->. reflexivity. Qed.
@@ -193,14 +195,17 @@ Proof.
   intros Q (p & -> & F). exists (a ++ p). split; [rewrite app_assoc; reflexivity|apply Forall_app; split; auto].
   apply quiet_noreply; auto.
 Qed.
+Ltac quiet_side :=
+  first [ assumption | apply Forall_nil
+        | apply only_aof_quiet; assumption
+        | apply only_aof_quiet; first [ eapply add_expried_only_aof; eassumption
+                                      | eapply push_unlock_aof_only_aof; eassumption
+                                      | eapply push_lock_aof_only_aof; eassumption ]
+        | eapply process_data_quiet; eassumption
+        | apply Forall_app; split; quiet_side
+        | apply Forall_cons; [exact I|quiet_side] ].
 Ltac ew :=
-  repeat first [ apply ew_one | apply ew_cons; [exact I|]
-               | apply ew_app; [first [ assumption | apply only_aof_quiet; assumption
-                                      | apply only_aof_quiet; first [ eapply add_expried_only_aof; eassumption
-                                                                     | eapply push_unlock_aof_only_aof; eassumption
-                                                                     | eapply push_lock_aof_only_aof; eassumption ]
-                                      | eapply process_data_quiet; eassumption
-                                      | repeat constructor ] |] ].
+  repeat first [ apply ew_one | apply ew_cons; [exact I|] | apply ew_app; [quiet_side|] ].
 
 (* pending, but the record is an ordinary holder (update with require-ack) or no holder any more: LOCKED_ERROR *)
 Theorem do_ack_stale : forall s r ok l s' ev w,
